@@ -308,7 +308,6 @@ def instances(tier, seed):
                 out.append(Instance('midrun-ranges/%s/%s/dim=1/free=%d' % (kind, cons or 'nocons', free), midrun(kind, 1, cons, free)))
     if not q:
         out.append(Instance('midrun-ranges/NM/nocons/dim=2', midrun('NM', 2, None)))
-        out.append(Instance('midrun-ranges/DE/nocons/dim=2', midrun('DE', 2, None)))
     for kind in ('NM', 'Powell', 'DE', 'DE2'):
         for n0 in ((1,) if q else (1, 2)):
             for cons in ((None,) if (q or kind.startswith('DE')) else (None, 'pure')):
